@@ -1274,14 +1274,13 @@ func handleAction(c *webClient, a any) error {
 		id := c.Id()
 		user := c.Username()
 		d := c.Data()
-		clients := g.GetClients(nil)
-		go func(clients []group.Client) {
-			for _, cc := range clients {
-				cc.PushClient(
-					g.Name(), "change", id, user, perms, d,
-				)
-			}
-		}(clients)
+		// push synchronously, so that the events about a given
+		// client are queued in the order in which they happened
+		for _, cc := range g.GetClients(nil) {
+			cc.PushClient(
+				g.Name(), "change", id, user, perms, d,
+			)
+		}
 	case kickAction:
 		return group.KickError{
 			a.id, a.username, a.message,
@@ -1991,14 +1990,12 @@ func handleClientMessage(c *webClient, m clientMessage) error {
 			user := c.Username()
 			perms := c.Permissions()
 			data = c.Data()
-			go func(clients []group.Client) {
-				for _, cc := range clients {
-					cc.PushClient(
-						g.Name(), "change",
-						id, user, perms, data,
-					)
-				}
-			}(g.GetClients(nil))
+			for _, cc := range g.GetClients(nil) {
+				cc.PushClient(
+					g.Name(), "change",
+					id, user, perms, data,
+				)
+			}
 		default:
 			return group.UserError("unknown user action")
 		}
